@@ -75,6 +75,8 @@ MUTANTS = [
     # the repaired while test (5f7ee5c)
     ('C01', 'supp/nast.py', r"test_start\.loop\(body\)", "body_start.loop(body)", 'C01-R5'),
     ('C01', 'supp/nast.py', r"self\.make_flow\('while-else', \[skipped\]\)", "self.make_flow('while-else', [cur])", 'C01-R5'),
+    ('C09', 'supp/module.py', r"        if not exists\(self\.filename\):[^\n]*\n            return True\n\n", "", 'C09-R5'),
+    ('C09', 'supp/module.py', r"        if not exists\(self\.filename\):([^\n]*)\n            return True\n", r"        if not exists(self.filename):\1\n            return False\n", 'C09-R5'),
     # unnamed buffers and path climbing (relative imports)
     ('C08', 'supp/assistant.py', r"    source = Source\(source, filename, position\)\n    filename = source\.filename\n    ctx", "    source = Source(source, filename, position)\n    ctx", 'C08-R1'),
     ('C08', 'supp/project.py', r"                if parent == root:  # the root directory\n                    break\n", "", 'C08-R4'),
